@@ -537,6 +537,40 @@ func ruleUpscaleGap(w *World, r *RuleResult) {
 						}
 					}
 				}
+				// the whole difference handed to a helper as a parameter: it is judged at the helper's call sites in
+				// upscale, each of which must pass a difference of the two Exponent fields
+				if pr, isP := x.(*ssa.Parameter); isP && f != top {
+					idx := -1
+					for i, q := range f.Params {
+						if q == pr {
+							idx = i
+						}
+					}
+					sites := 0
+					allDiff := idx >= 0
+					for _, cs := range callsIn(top) {
+						if callee(cs) != f || idx >= len(cs.Common().Args) {
+							continue
+						}
+						sites++
+						d, isD := cs.Common().Args[idx].(*ssa.BinOp)
+						if !isD || d.Op != token.SUB || !strings.Contains(w.exprOf(top, d.X).String(), ".Exponent") || !strings.Contains(w.exprOf(top, d.Y).String(), ".Exponent") {
+							allDiff = false
+						}
+					}
+					if allDiff && sites > 0 {
+						bound := ci(k) - off
+						if bo.Op == token.GEQ {
+							bound--
+						}
+						if bound >= 2*maxE {
+							good = true
+						} else {
+							tooLow = fmt.Sprintf("%s refuses gaps above %d, but two operands within the limits can be %d apart", w.exprOf(f, g.Cond).String(), bound, 2*maxE)
+						}
+					}
+					continue
+				}
 				sub, isSub := x.(*ssa.BinOp)
 				if !isSub || sub.Op != token.SUB {
 					continue
